@@ -400,3 +400,43 @@ def import_pyerrors():
         print("INFRASTRUCTURE: imported pyerrors from %s, not from %s" % (here, REPO))
         sys.exit(2)
     return pe
+
+
+# ----------------------------------------------------------------------------- generic case judging
+def judge_cases(ctx, tag, header, typ, terms, verdicts, shard=40, timeout=1200):
+    """Write the case terms (Coq terms of type `typ`) into shards, let Coq evaluate every verdict function
+    (names of `typ -> bool` functions) on them with vm_compute and return, per verdict, the sorted list of
+    indices of the cases it rejects.  A shard that does not evaluate is a broken obligation."""
+    files = []
+    for s in range(0, len(terms), shard):
+        chunk = terms[s:s + shard]
+        txt = header + "\nDefinition cases : list (%s) := [\n%s\n].\n" % (typ, ";\n".join(chunk))
+        for v in verdicts:
+            txt += "Eval vm_compute in bad_cases %s cases.\n" % v
+        files.append(ctx.write("cases_%s_%03d.v" % (tag, s // shard), txt))
+    bad = [[] for _ in verdicts]
+    outs = coqc_many(files, ctx.gendir, timeout)
+    for k, (ok, so, se, secs) in enumerate(outs):
+        if not ok:
+            ctx.obligation("X:cases_%s_%03d.v evaluates" % (tag, k), False, (se or so)[-800:])
+            continue
+        for j in range(len(verdicts)):
+            lst = parse_z_list(so, j)
+            if lst is None:
+                ctx.obligation("X:cases_%s_%03d.v verdict %d printed" % (tag, k, j), False, so[-400:])
+                continue
+            bad[j] += [k * shard + i for i in lst]
+    return bad
+
+
+def settle(ctx, tag, cases, bad_model, bad_spec, what_model):
+    """Standard classification: spec-rejected cases are failing inputs of the real code; model-only
+    disagreements break the tie (model no longer describes the code)."""
+    for i in bad_spec:
+        c = cases[i]
+        ctx.fail(c["key"], c["what"], c["replay"])
+    only_model = [i for i in bad_model if i not in set(bad_spec)]
+    ctx.obligation("X:%s" % what_model, not only_model,
+                   "cases on which model and implementation disagree although the spec verdict passes: %s; first: %s"
+                   % (only_model[:10], json.dumps(cases[only_model[0]].get("descr", ""), default=str)[:600] if only_model else ""))
+    ctx.extra.setdefault("disagreements", {})[tag] = {"model": len(bad_model), "spec": len(bad_spec)}
